@@ -48,23 +48,61 @@ class Facts:
         self.ck, self.dag, self.date = ck, dag, date
         self.memo = {}
         self.enc = {}
+        self.bad = {}
+        self.inlined = {}
 
     def encode(self, n):
+        """(function, {leaf argument: Sym}, value term, preconditions).  An argument that is itself a group-level rule
+        whose own constancy obligation FAILS is not trusted (no assume/guarantee for a broken producer): its real source
+        is inlined, so the consumer is analysed over the producer's arguments and a replay can start from them."""
         if n not in self.enc:
             f = self.dag.rule_function(n)
             try:
-                kw, syms = gt.rule_args(f, self.dag.params)
-                v, ctx = R.run(f, kwargs=kw)
-                if v is None:
-                    raise R.Unsupported("no value")
-                self.ck.functions |= ctx.funcs
-                errs = [g_ for g_, k_, w_ in ctx.errors]
-                pre = validity.inputs(syms) + list(ctx.assumptions) + ([z3.Not(z3.Or(errs))] if errs else [])
-                self.enc[n] = (f, syms, R.lift(v)[0], pre)
+                syms, pre = {}, []
+                v, errs, assumes = self._value(n, syms, set())
+                self.enc[n] = (f, syms, R.lift(v)[0], validity.inputs(syms) + assumes + ([z3.Not(z3.Or(errs))] if errs else []))
             except R.Unsupported as e:
                 self.ck.not_encoded[f.__name__] = str(e)[:100]
                 self.enc[n] = None
         return self.enc[n]
+
+    def _value(self, n, syms, stack):
+        f = self.dag.rule_function(n)
+        kw = {}
+        errs, assumes = [], []
+        for a in inspect.signature(f).parameters:
+            if a.endswith("_params"):
+                if a[:-7] not in self.dag.params:
+                    raise R.Unsupported(f"parameter group {a[:-7]} missing")
+                kw[a] = self.dag.params[a[:-7]]
+                continue
+            if a not in stack and a != n and self.is_bad(a):
+                va, ea, aa = self._value(a, syms, stack | {n})
+                self.inlined.setdefault(n, set()).add(a)
+                kw[a] = va
+                errs += ea
+                assumes += aa
+                continue
+            if a not in syms:
+                ann = f.__annotations__.get(a)
+                if ann not in (float, int, bool):
+                    raise R.Unsupported(f"argument {a} has non-scalar annotation {ann}")
+                syms[a] = R.sym_for(a, ann)
+            kw[a] = syms[a]
+        v, ctx = R.run(f, kwargs=kw)
+        if v is None:
+            raise R.Unsupported("no value")
+        self.ck.functions |= ctx.funcs
+        return v, errs + [g_ for g_, k_, w_ in ctx.errors], assumes + list(ctx.assumptions)
+
+    def is_bad(self, n):
+        """n is a group-level policy rule whose own two-copy obligation is refuted (known or new finding)"""
+        if n not in self.bad:
+            self.bad[n] = False          # cycle guard
+            sg = gt.suffix_group(n)
+            if sg and n in self.dag.graph.nodes and not n.endswith("_params") and self.dag.kind(n) == "rule":
+                self.bad[n] = self.query(n, sg, oblige=False)[0] == "sat"
+        return self.bad[n]
 
     def const(self, n, g):
         key = (n, g)
@@ -93,7 +131,7 @@ class Facts:
             ps = dag.parents(n)
             r = len(ps) == 1 and self.const(ps[0], g)
         elif sg and sg in IMPL[g]:
-            r = True     # assume/guarantee: checked by the node's own obligation
+            r = not self.is_bad(n)     # assume/guarantee only while the node's own obligation holds
         else:
             r = self.query(n, g, oblige=False)[0] == "unsat"
         self.memo[key] = r
@@ -145,7 +183,7 @@ def analyse(ck, date, done):
                 sig = (f.__name__, sg, tuple(offending))
                 if sig not in done:
                     done.add(sig)
-                    report(ck, dag, date, n, f, sg, syms, free, m, offending)
+                    report(ck, dag, date, n, f, sg, syms, free, m, offending, sorted(facts.inlined.get(n, ())))
         else:
             ck.obligations += 1
             if facts.const(n, sg):
@@ -156,7 +194,7 @@ def analyse(ck, date, done):
     return dag
 
 
-def report(ck, dag, date, n, f, g, syms, free, m, offending):
+def report(ck, dag, date, n, f, g, syms, free, m, offending, via=None):
     rows = [{}, {}]
     for a, s in syms.items():
         rows[0][a] = R.model_value(m, s)
@@ -165,7 +203,7 @@ def report(ck, dag, date, n, f, g, syms, free, m, offending):
     # keyed by the rule, the group and *all* its arguments that are not group-level (model independent)
     key = ["not-group-constant", f.__name__, g, ",".join(sorted(free))]
     what = (f"{f.__name__} ({n}) at {date}: two members of one {g} get different values {res['values']} because "
-            f"argument(s) {offending} are not {g}-level")
+            f"argument(s) {offending} are not {g}-level" + (f" (through {via})" if via else ""))
     if res["fails"]:
         ck.violation(key, what, {"kind": "rule", "date": str(date), "node": n, "group": g, "rows": rows})
     else:
